@@ -53,6 +53,8 @@ def run(tier):
     allv += altv
     # malformed but plausible: references that lead back to a DIE already visited (the DIE itself, an earlier
     # one): `attribute', @AT_x, ?AT_x and name must terminate and integrate what is reachable, once
+    # chains of any length: 20 and 40 hops
+    allv += D.gen_forests("chain", 22, wd, shards=1) + D.gen_forests("chain", 42, wd, shards=1)
     cycv = D.gen_forests("cyc", 3, wd)
     total_cyc = len(cycv)
     allv += cycv if tier == "thorough" else rng.sample(cycv, min(300, len(cycv)))
